@@ -4,7 +4,10 @@ use crate::{
 };
 use proc_macro2::Span;
 use quote::ToTokens;
+#[cfg(not(o2o_verif))]
 use std::collections::HashSet;
+#[cfg(o2o_verif)]
+use crate::verif_shim::HashSet;
 
 #[cfg(feature = "syn2")]
 use syn2 as syn;
